@@ -1747,8 +1747,10 @@ class InTablePhase(Phase):
     def startTagTable(self, token):
         self.parser.parseError("unexpected-start-tag-implies-end-tag",
                                {"startName": "table", "endName": "table"})
+        inScope = self.tree.elementInScope("table", variant="table")
         self.parser.phase.processEndTag(impliedTagToken("table"))
-        if not self.parser.innerHTML:
+        if inScope:
+            # the open table has been closed: the start tag is seen again
             return token
 
     def startTagStyleScript(self, token):
